@@ -102,6 +102,8 @@ def symbolise(ctx, node, namer=None, keep=DISCRIMINATORS, data="keep", list_vari
             ne = (js[i] != js[j])
             ctx.assume(ne)
     d = node.data
+    if node.tag == "registration" and isinstance(d, bytes) and len(d) == 4 and data != "blob":
+        d = H.symbytes(ctx, namer.next("reg"), 4)          # a number blob: every 32-bit value
     if d is not None and data == "blob":
         L = ctx.int(namer.next("len"), 0, 4096)
         d = H.blob(ctx, namer.next("data"), L)
